@@ -113,8 +113,8 @@ def run_property(pid, tier, replay, meta, mode, witnesses, cfgs_quick=None, cfgs
     args = ["hist", "--out", obs, "--script", script_path, "--seed", lib.seed(), "--mode", mode]
     if not replay:
         args += ["--random", 10 if tier == "quick" else 160, "--minlen", 12, "--maxlen", 45 if tier == "quick" else 70]
-        if mode == "lifecycle":
-            args += ["--patterns", 8 if tier == "quick" else 90]   # scripted lag / trim patterns with seeded variation
+        # scripted multi-step patterns with seeded variation: lag / trim (lifecycle) or uuid+name conflicts (converge)
+        args += ["--patterns", 8 if tier == "quick" else 90]
     lib.kverif("repl", args, timeout=3000)
     tv = lib.trace_validate("KReplTrace", obs, pid, timeout=3000, xmx="8g")
     lines = lib.read_lines(obs)
@@ -168,3 +168,29 @@ def run_property(pid, tier, replay, meta, mode, witnesses, cfgs_quick=None, cfgs
         "mesh = rounds of all ordered pairs until one round supplies nothing (max 8 rounds)",
     ]
     R.finish()
+
+
+def repl_stage(pid, tier, wd, mode="lifecycle"):
+    """Replicated stage for properties owned by another group (e.g. C16): scripted patterns + seeded random histories on
+    2-3 real replicas, judged by KReplTrace; returns (violations, n_histories, n_steps) where violations is a list of
+    (signature, description, replay_lines) for L1FAIL tuples of `pid`."""
+    lib.build("repl")
+    obs = f"{wd}/repl-obs.ndjson"
+    args = ["hist", "--out", obs, "--seed", lib.seed(), "--mode", mode,
+            "--patterns", 10 if tier == "quick" else 120, "--random", 4 if tier == "quick" else 60,
+            "--minlen", 12, "--maxlen", 40]
+    lib.kverif("repl", args, timeout=3000)
+    tv = lib.trace_validate("KReplTrace", obs, pid, timeout=3000, xmx="8g", tag="KReplTrace_stage")
+    recs = [json.loads(l) for l in lib.read_lines(obs)]
+    starts = [i for i, r in enumerate(recs) if r["op"] == "init"]
+    out = []
+    for t in tv["l1fail"]:
+        if t[1] != pid:
+            continue
+        ln, sig = t[2], t[3]
+        i0 = max(s for s in starts if s <= ln - 1)
+        rl = [json.dumps({k: v for k, v in r.items() if k not in ("st", "res", "now", "skew")}) for r in recs[i0:ln] if "m" not in r]
+        if "m" in recs[ln - 1]:
+            rl.append(json.dumps({"op": "mesh"}))
+        out.append((sig, f"{sig} at line {ln} (op {recs[ln-1]['op']}) of a replicated history", rl))
+    return out, len(starts), len(recs)
